@@ -77,7 +77,7 @@ def gen_choosers(seed, tier):
         for src in srcs:
             cases.append({"op": "create", "decl": d, "decider": ["prog"], "src": src})
     for _ in range(40 if not big else 200):
-        d = grammars.gen_decl(r, {"weights": True, "tuples": False})
+        d = grammars.gen_decl(r, {"weights": True, "tuples": False, "dependent": False})
         for src in ({"k": "extreme", "policy": "min"}, {"k": "record", "seed": r.randrange(10**6)}):
             cases.append({"op": "create", "decl": d, "decider": ["prog"], "src": src})
     return cases
